@@ -10,6 +10,8 @@
                (packets_lost 24-bit signed by clamp, highest_sequence / jitter / lsr 32-bit by mask or saturation,
                dlsr >= 0)
   C18-LSR      sender and receiver take the same middle 32 bits of the NTP timestamp
+  C18-REF      StreamStatistics.add on packet sequences (steady, jittered, losses, duplicates / late copies, several packets per
+               timestamp; small origins and across both wraps) equals an independent RFC 3550 A.3 / A.8 reference
   C18-DLSR     the delay-since-last-SR statement evaluated on a grid of delays (negative, 0, < 65536 s, >= 65536 s): 0 or the delay in
                1/65536 s, always within 32 bits
 Does not decide: numeric equality with the RFC formulas over histories.
